@@ -32,6 +32,7 @@ func run(c *mon.Ctx) {
 	c.Floor("decode_after_descriptor_cut_short", 500)
 	c.Floor("sections.command_length_not_given", 5000)
 	c.Floor("sections.pointer_field_over_other_bytes", 2000)
+	c.Floor("later_section_with_twin_identifiers", 1000)
 	c.Stream("sections", c.N(60000, 60000000), func(i int, r *gen.Rand) {
 		s := ref.GenSig(r, true)
 		if r.Chance(8) {
@@ -178,6 +179,41 @@ func run(c *mon.Ctx) {
 					s35.CheckDecoded(c, "decode-from-a-buffer-refilled-with-another-section-of-the-same-length", &s2, y, snap2)
 				}
 				copy(in, snap)
+			}
+		}
+		// ... and of all of the bytes: a later section differs from this one only in identifier bytes, chosen so that
+		// a summary of them (one of the usual checksums, the bytes in another order, the first and last bytes) is
+		// the same as for this one's
+		if i%4 == 3 && len(s.Descs) > 0 {
+			s3 := s
+			s3.Descs = append([]ref.SegDesc{}, s.Descs...)
+			twins := ""
+			for k := range s3.Descs {
+				d := &s3.Descs[k]
+				if d.Foreign || d.Cancel {
+					continue
+				}
+				if d.UPIDType == 0x0d {
+					d.MID = append([]ref.UPID{}, d.MID...)
+					for j := range d.MID {
+						if b, kind, ok := gen.Twin(r, d.MID[j].Data); ok {
+							d.MID[j].Data, twins = b, twins+kind+","
+						}
+					}
+				} else if b, kind, ok := gen.Twin(r, d.UPID); ok {
+					d.UPID, twins = b, twins+kind+","
+				}
+			}
+			if twins != "" {
+				c.Count("later_section_with_twin_identifiers")
+				p3 := s3.Payload()
+				if y, err := scte35.NewSCTE35(p3); err != nil || y == nil {
+					c.Fail("decode-twin-identifiers:error", fmt.Sprintf("a section that differs from the one decoded before only in identifier bytes (%s) was rejected: %v", twins, err), wit{Input: mon.Hex(p3), Shape: s35.Shape(&s3)})
+				} else {
+					s35.CheckDecoded(c, "decode-of-a-later-section-that-differs-only-in-identifier-bytes-with-the-same-summary", &s3, y, p3)
+					// and the earlier object still reports its own
+					s35.CheckDecoded(c, "decode:object-after-a-later-section-with-twin-identifiers", &s, x, snap)
+				}
 			}
 		}
 		// decoding is a function of the bytes: edit the decoded object in place, decode the same bytes again
